@@ -127,8 +127,10 @@ fn c13_with(limit: usize, waiters: usize, cancel_first: bool) {
 }
 
 fn c14(ntokens: usize, droppers: usize) {
-    let cfg = Config::with_conns(8.try_into().unwrap());
+    // limit = number of tokens: when the shutdown future is Ready every token is gone, its slot included
+    let cfg = Config::with_conns(ntokens.try_into().unwrap());
     let runner = cfg.async_runner();
+    let clone = runner.clone();
     let tokens: Vec<Token> = (0..ntokens).map(|_| take_token(&runner)).collect();
     let mut fut = Box::pin(runner.shutdown());
     let begun = Arc::new(AtomicUsize::new(0));
@@ -162,6 +164,14 @@ fn c14(ntokens: usize, droppers: usize) {
             let mut cx = Context::from_waker(&w);
             if fut.as_mut().poll(&mut cx).is_ready() {
                 if begun.load(Ordering::SeqCst) < ntokens { violation("C14", "shutdown future Ready before every token drop had begun"); }
+                {
+                    let f = Arc::new(Flag { woken: AtomicBool::new(false), wakes: AtomicUsize::new(0) });
+                    let w = Waker::from(f);
+                    let mut cx = Context::from_waker(&w);
+                    let g = clone.get_token();
+                    futures_util::pin_mut!(g);
+                    if g.poll(&mut cx).is_pending() { violation("C14", "shutdown future Ready while a dropped token still occupies its connection slot"); }
+                }
                 ready = true;
                 break;
             }
